@@ -20,6 +20,10 @@ Tables ==
     [name |-> "string_literal",   side |-> "express", cap |-> 1024,  guard |-> "dynamic"],
     [name |-> "paren_depth",      side |-> "express", cap |-> 100,   guard |-> "dynamic"],
     [name |-> "attr_count",       side |-> "express", cap |-> 200,   guard |-> "dynamic"],
+    \* not a buffer but a time bound: comparisons nested on the left, n deep, over a name that resolves (valid input) or
+    \* does not (one diagnostic, not one per level or per path): the work must stay proportional to n
+    [name |-> "rel_depth",        side |-> "express", cap |-> 40,    guard |-> "dynamic"],
+    [name |-> "failed_rel_depth", side |-> "express", cap |-> 40,    guard |-> "dynamic"],
     \* exppp's in-memory string mode (exp2cxx prints every rule, initialiser and algorithm body through it): one piece of
     \* text per WHERE rule / function, in a buffer of 100000 bytes that is grown on demand
     [name |-> "rendered_where",   side |-> "express", cap |-> 100000, guard |-> "dynamic"],
